@@ -1,0 +1,14 @@
+//go:build verif
+
+package aggregate
+
+// Contracts for the verification machinery in /verif (comment-only file; no code).
+
+// ---- ICS-20 middleware (C16): the acknowledgement of the transfer application is what IBC core gets --
+// callres("OnRecvPacket", 0, 1) is the result of the first OnRecvPacket call on the path: the wrapped
+// transfer application's (through ibc.Module); the second call is the aggregate keeper's hook.
+
+// verif:func (IBCMiddleware).OnRecvPacket
+//@ modifies world(ctx)
+//@ ensures [transparent] result == callres("OnRecvPacket", 0, 1)
+//@ ensures [app-called-once-first] ncalls("OnRecvPacket") >= 1 && ncalls("OnRecvPacket") <= 2
